@@ -165,6 +165,12 @@ def run(cx):
         tt = [t for t, ls in labels.items() if ls == {"true"}]
         ff = [t for t, ls in labels.items() if ls == {"false"}]
         asr = b.calls_to("rustls::verify::ClientCertVerified::assertion")
+        if len(asr) > 1 and len(tt) == 1:
+            # more than one place vouches for the client certificate: each must lie behind the `true` edge of the name test
+            for c_ in asr:
+                ob.require(b.dominates(tt[0], c_.bb) and c_.bb not in b.reachable_from(ff[0]), "client-cert/assert-on-true-edge",
+                           "assertion() is reachable without any() being true (a client certificate issued for no accepted name is vouched for)", b.path, b.loc(c_.bb))
+            asr = asr[:1]
         ob.floor(asr, 1, "ClientCertVerified::assertion site", exact=True)
         ob.require(len(tt) == 1 and b.dominates(tt[0], asr[0].bb) and asr[0].bb not in b.reachable_from(ff[0]), "client-cert/assert-on-true-edge",
                    "assertion() is reachable without any() being true", b.path, b.loc(asr[0].bb))
